@@ -22,9 +22,45 @@ class ServiceOrder(O.Monitor):
         self.activity = {"starts": 0, "multi_candidate_starts": 0, "multi_class_starts": 0, "lifo_siro_choices": 0,
                          "starts_after_unblock": 0, "starts_at_shift_change": 0, "starts_after_class_change": 0, "fifo_audited": 0}
 
+    def before(self, Q, node, etype):
+        self.slot_wait = None
+        if etype == "slotted_service":
+            nd = node
+            self.slot_wait = [(i, i.priority_class, O._interrupted_waiting(nd, i) or bool(i.server)) for i in O.customers(nd) if not O.live(nd, i)]
+
+    def slotted(self, Q, node, rep):
+        """Service starts at a slot: the customers started must be the best of those that were waiting (interrupted ones first)."""
+        nd = node
+        nid = nd.id_number
+        t = Q.current_time
+        fresh = [(i, p) for i, p, iw in self.slot_wait if not iw]
+        started = [i for i, p in fresh if O.live(nd, i) and i.service_start_date == t]
+        left = [i for i, p in fresh if not (O.live(nd, i) and i.service_start_date == t) and any(x is i for x in O.customers(nd))]
+        if not started:
+            return
+        self.activity["slot_starts_checked"] = self.activity.get("slot_starts_checked", 0) + len(started)
+        prio = {id(i): p for i, p in fresh}
+        disc = self.spec["nodes"][nid - 1].get("discipline", "FIFO")
+        for a in started:
+            for b in left:
+                pa, pb = prio[id(a)], prio[id(b)]
+                if pb < pa:
+                    rep("highest-priority-class-first", {"node": nid, "chosen": a.id_number, "priority": pa, "left_waiting": [b.id_number, pb], "slot": True})
+                    return
+                if pa == pb and len(left) + len(started) > 1:
+                    ka, kb = self._key(a, nid, Q.n_events), self._key(b, nid, Q.n_events)
+                    if (disc == "FIFO" and kb < ka) or (disc == "LIFO" and kb > ka):
+                        rep("discipline-within-class", {"node": nid, "discipline": disc, "chosen": a.id_number, "left_waiting": b.id_number,
+                                                        "order": [ka, kb], "slot": True})
+                        return
+        if left:
+            self.activity["multi_candidate_starts"] += 1
+
     def after(self, Q, node, etype, nxt):
         rep = lambda clause, d: Q.report(self.P, "C08." + clause, etype, d)
         ev = Q.n_events
+        if etype == "slotted_service" and self.slot_wait is not None:
+            self.slotted(Q, node, rep)
         # 1. (re)number customers: new at a node, or priority changed while queueing (joins the tail of its new class)
         for nd in Q.transitive_nodes:
             for ind in O.customers(nd):
@@ -48,8 +84,9 @@ class ServiceOrder(O.Monitor):
         for e in entries:
             _, t, nid, ind, server, cands, restart = e
             ndspec = self.spec["nodes"][nid - 1]
-            if restart or ndspec["servers"].get("preemption"):
+            if restart:
                 continue            # restarts of schedule-interrupted customers are C12's subject
+            cands = [c for c in cands if not c[3] or c[2] is ind]     # interrupted customers waiting for a server are not in the queue
             self.activity["starts"] += 1
             if etype == "shift_change":
                 self.activity["starts_at_shift_change"] += 1
@@ -195,68 +232,11 @@ class PreemptivePriorities(O.Monitor):
 
     def finish(self, Q, res):
         """Per visit: episodes = interrupted records + final service record; compare with the logged samples."""
-        rep = lambda clause, d: Q.report(self.P, "C11." + clause, "audit", d)
-        samples = defaultdict(list)
-        for tag, t, ind, v in Q.built.samples:
-            if tag[0] == "srv":
-                samples[(ind, tag[1])].append((t, v))
-        inds = list(Q.nodes[-1].all_individuals)
-        for nd in Q.transitive_nodes:
-            inds.extend(O.customers(nd))
-        for ind in inds:
-            R = ind.data_records
-            ptr = defaultdict(int)       # node -> samples of this customer at that node consumed so far (draw order)
-            i = 0
-            while i < len(R):
-                r = R[i]
-                if r.record_type not in ("service", "interrupted service"):
-                    i += 1
-                    continue
-                # collect the episodes of this visit
-                ep = [r]
-                j = i
-                while not moving(R[j]) and j + 1 < len(R) and R[j + 1].node == r.node and R[j + 1].arrival_date == r.arrival_date \
-                        and R[j + 1].record_type in ("service", "interrupted service"):
-                    j += 1
-                    ep.append(R[j])
-                i = j + 1
-                nid = r.node
-                opt = self.spec["nodes"][nid - 1].get("prio_preempt")
-                if not opt or self.spec["nodes"][nid - 1]["servers"].get("preemption"):
-                    continue
-                S_ = samples.get((ind.id_number, nid), [])
-                p0 = ptr[nid]
-                need = len(ep) if opt == "resample" else 1
-                ss = S_[p0:p0 + need]
-                ptr[nid] = p0 + need
-                if len(ep) < 2 and ep[0].record_type == "service":
-                    if len(ss) != 1 or ss[0][0] != ep[0].service_start_date:
-                        rep("one-sample-per-uninterrupted-service", {"customer": ind.id_number, "node": nid, "samples": ss, "start": O._num(ep[0].service_start_date)})
-                    continue
-                self.activity["episodes_checked"] += 1
-                final = ep[-1] if ep[-1].record_type == "service" else None
-                if len(ss) != need or ss[0][0] != ep[0].service_start_date:
-                    rep(opt + "-draws-" + ("a-fresh-sample-per-episode" if opt == "resample" else "one-sample"),
-                        {"customer": ind.id_number, "node": nid, "samples": ss, "episode_starts": [O._num(x.service_start_date) for x in ep]})
-                    continue
-                if opt == "resume":
-                    if final is not None:
-                        served = sum(float(x.exit_date) - float(x.service_start_date) for x in ep[:-1]) + float(final.service_end_date) - float(final.service_start_date)
-                        if abs(served - float(ss[0][1])) > 1e-9:
-                            rep("resume-total-served-equals-requirement", {"customer": ind.id_number, "node": nid, "served": served, "requirement": ss[0][1]})
-                elif opt == "restart":
-                    for x in ep:
-                        dur = x.service_time if x.record_type == "interrupted service" else x.service_end_date - x.service_start_date
-                        if abs(float(dur) - float(ss[0][1])) > 1e-9:
-                            rep("restart-gives-the-same-time-again", {"customer": ind.id_number, "node": nid, "episode_time": O._num(dur), "requirement": ss[0][1]})
-                            break
-                elif opt == "resample":
-                    for x, s_ in zip(ep, ss):
-                        dur = x.service_time if x.record_type == "interrupted service" else x.service_end_date - x.service_start_date
-                        if abs(float(dur) - float(s_[1])) > 1e-9 or s_[0] != x.service_start_date:
-                            rep("resample-episode-uses-its-own-sample", {"customer": ind.id_number, "node": nid, "episode_time": O._num(dur), "sample": s_})
-                            break
-                elif opt == "reroute":
-                    for x in ep:
-                        if x.record_type == "interrupted service" and x is not ep[-1]:
-                            rep("rerouted-customer-has-no-further-episode-here", {"customer": ind.id_number, "node": nid})
+        from . import episodes
+
+        def option_of(nid):
+            nd = self.spec["nodes"][nid - 1]
+            if nd["servers"].get("preemption"):
+                return None
+            return nd.get("prio_preempt") or None
+        episodes.audit(Q, option_of, lambda clause, d: Q.report(self.P, "C11." + clause, "audit", d), self.activity)
